@@ -40,11 +40,16 @@ const BASE_BRANCHES: [Option<&str>; 49] = [None, Some("main"), Some("develop"), 
 /// deep names: the first all-digit segment sits 1 .. 10 segments behind the rule prefix, last or followed by another segment
 /// (explored with a reduced flag product: one commit ahead, no override flags)
 const DEEP_BRANCHES: [&str; 40] = ["feature/42", "feature/42/tail-fix", "feature/s1/42", "feature/s1/42/tail-fix", "feature/s1/s2/42", "feature/s1/s2/42/tail-fix", "feature/s1/s2/s3/42", "feature/s1/s2/s3/42/tail-fix", "feature/s1/s2/s3/s4/42", "feature/s1/s2/s3/s4/42/tail-fix", "feature/s1/s2/s3/s4/s5/42", "feature/s1/s2/s3/s4/s5/42/tail-fix", "feature/s1/s2/s3/s4/s5/s6/42", "feature/s1/s2/s3/s4/s5/s6/42/tail-fix", "feature/s1/s2/s3/s4/s5/s6/s7/42", "feature/s1/s2/s3/s4/s5/s6/s7/42/tail-fix", "feature/s1/s2/s3/s4/s5/s6/s7/s8/42", "feature/s1/s2/s3/s4/s5/s6/s7/s8/42/tail-fix", "feature/s1/s2/s3/s4/s5/s6/s7/s8/s9/42", "feature/s1/s2/s3/s4/s5/s6/s7/s8/s9/42/tail-fix", "release/42", "release/42/tail-fix", "release/s1/42", "release/s1/42/tail-fix", "release/s1/s2/42", "release/s1/s2/42/tail-fix", "release/s1/s2/s3/42", "release/s1/s2/s3/42/tail-fix", "release/s1/s2/s3/s4/42", "release/s1/s2/s3/s4/42/tail-fix", "release/s1/s2/s3/s4/s5/42", "release/s1/s2/s3/s4/s5/42/tail-fix", "release/s1/s2/s3/s4/s5/s6/42", "release/s1/s2/s3/s4/s5/s6/42/tail-fix", "release/s1/s2/s3/s4/s5/s6/s7/42", "release/s1/s2/s3/s4/s5/s6/s7/42/tail-fix", "release/s1/s2/s3/s4/s5/s6/s7/s8/42", "release/s1/s2/s3/s4/s5/s6/s7/s8/42/tail-fix", "release/s1/s2/s3/s4/s5/s6/s7/s8/s9/42", "release/s1/s2/s3/s4/s5/s6/s7/s8/s9/42/tail-fix"];
-const N_BRANCHES: usize = BASE_BRANCHES.len() + DEEP_BRANCHES.len();
+/// names that spell a branch the way refs, remotes and CI variables do: only `*` (or a rule written for that spelling) matches them
+/// (explored with the reduced flag product of the deep names)
+const REF_BRANCHES: [&str; 30] = ["refs/heads/develop", "refs/heads/release/3", "refs/heads/main", "refs/heads/feature/7/x", "refs/remotes/origin/develop", "refs/remotes/origin/release/3", "origin/develop", "origin/release/3", "origin/main",
+    "heads/develop", "heads/release/3", "remotes/origin/release/3", "refs/tags/release/3", "refs/pull/12/head", "refs/pull/12/merge", "refs/merge-requests/3/head", "pull/12/head", "refs/heads/", "refs/heads", "refs/develop", "refs/release/3",
+    "upstream/release/3", "HEAD", "(HEAD detached at 1a2b3c4)", "(no branch)", "heads/release/x/7", "refs/heads/qa/5", "refs/heads/staging", "refs/heads/2024/rel/3", "refs/heads/a/b/10"];
+const N_BRANCHES: usize = BASE_BRANCHES.len() + DEEP_BRANCHES.len() + REF_BRANCHES.len();
 /// grid branches: `release/<g>` and `feature/<g>/x` for every value g of the dense numeric grid (numpool), index N_BRANCHES..
 static GRID_BRANCHES: std::sync::OnceLock<Vec<String>> = std::sync::OnceLock::new();
 fn grid_branches() -> &'static Vec<String> { GRID_BRANCHES.get_or_init(|| numpool::grid().into_iter().flat_map(|g| [format!("release/{g}"), format!("feature/{g}/x")]).collect()) }
-fn branch_name(i: usize) -> Option<&'static str> { if i < BASE_BRANCHES.len() { BASE_BRANCHES[i] } else if i < N_BRANCHES { Some(DEEP_BRANCHES[i - BASE_BRANCHES.len()]) } else { Some(grid_branches()[i - N_BRANCHES].as_str()) } }
+fn branch_name(i: usize) -> Option<&'static str> { if i < BASE_BRANCHES.len() { BASE_BRANCHES[i] } else if i < BASE_BRANCHES.len() + DEEP_BRANCHES.len() { Some(DEEP_BRANCHES[i - BASE_BRANCHES.len()]) } else if i < N_BRANCHES { Some(REF_BRANCHES[i - BASE_BRANCHES.len() - DEEP_BRANCHES.len()]) } else { Some(grid_branches()[i - N_BRANCHES].as_str()) } }
 
 /// dense numeric grid in each numeric input in turn: --distance, --post, --pre-release-num, the branch's digit segment, on two
 /// tags (final, pre-release with post), clean / dirty, both post modes, default rules
@@ -219,7 +224,7 @@ fn main() {
     cov.evaluations = all.get("runs") + all.get("resolve_for_branch_cases");
     cov.traces_validated = cov.evaluations;
     cov.distinct_nontrivial = all.get("active_cases");
-    cov.rule = format!("full product tag{TAGS:?} x {} branch names (incl. prefix-without-slash, digit segments, zero-padded, u32-overflowing, non-ASCII, absent; 40 of them with the number 1..10 segments deep, on a reduced flag product) x distance[none,0,1,5] x dirty[unset,--dirty,--no-dirty,--clean] x --post x --pre-release-label x --pre-release-num x --post-mode x 6 rule sets{}, run through run_flow_pipeline with --output-format zerv on source none{} and compared field by field with R-FLOW; hash lengths 0..11 x branches x 2 tags against R-SIP; BranchRules::resolve_for_branch directly; dense numeric grid (0..=300, neighbourhoods of 2^8..2^64 and 10^2..10^20) as --distance, --post, --pre-release-num and as the digit segment of release/<g> and feature/<g>/x ({} runs). non-trivial = active (dirty or ahead) cases", N_BRANCHES, if ctx.quick() { " (quick: 4 tags, distance without 5)" } else { "" }, if ctx.quick() { " (+ a strided stdin slice)" } else { " and stdin" }, gsp.len());
+    cov.rule = format!("full product tag{TAGS:?} x {} branch names (incl. prefix-without-slash, digit segments, zero-padded, u32-overflowing, non-ASCII, absent; 30 spelled like refs / remotes / CI variables and 40 with the number 1..10 segments deep, on a reduced flag product) x distance[none,0,1,5] x dirty[unset,--dirty,--no-dirty,--clean] x --post x --pre-release-label x --pre-release-num x --post-mode x 6 rule sets{}, run through run_flow_pipeline with --output-format zerv on source none{} and compared field by field with R-FLOW; hash lengths 0..11 x branches x 2 tags against R-SIP; BranchRules::resolve_for_branch directly; dense numeric grid (0..=300, neighbourhoods of 2^8..2^64 and 10^2..10^20) as --distance, --post, --pre-release-num and as the digit segment of release/<g> and feature/<g>/x ({} runs). non-trivial = active (dirty or ahead) cases", N_BRANCHES, if ctx.quick() { " (quick: 4 tags, distance without 5)" } else { "" }, if ctx.quick() { " (+ a strided stdin slice)" } else { " and stdin" }, gsp.len());
     cov.exhaustive = true;
     cov.samples = vec![json!(argv(&cases[cases.len() / 2], &sets)), json!(argv(&cases[cases.len() - 3], &sets)), json!(argv(&hs[17], &sets))];
     cov.set("clause_counts", all.to_json());
